@@ -29,30 +29,21 @@ theorem serialize_abort_bad {n : Nat} (hlen : (minBE n).length < 13) :
   simp [serialize, abortMsg, encodeOpts, writeExt, codeAbort, payloadPart, frameBytes, hlen,
     txtOptNotSupported, encodeLength, a, b]
 
-theorem csmOpts_noErr (s : Settings) (opts : List Opt)
-    (h : ∀ o ∈ opts, (minBE o.num).length < 13) : noErr (csmOpts s opts).2 := by
+/-- the option the CSM loop stops at is one of the message -/
+theorem csmOpts_some_mem (s : Settings) (opts : List Opt) {s' : Settings} {n : Nat}
+    (h : csmOpts s opts = (s', some n)) : ∃ o ∈ opts, o.num = n := by
   induction opts generalizing s with
-  | nil => simp [noErr, csmOpts]
+  | nil => simp [csmOpts] at h
   | cons o os ih =>
-    have hos := fun x hx => h x (List.mem_cons_of_mem _ hx)
-    simp only [csmOpts]
-    split
-    · exact ih _ hos
-    · split
-      · exact ih _ hos
-      · split
-        · exact noErr_append.mpr
-            ⟨abortOuts_noErr (serialize_abort_bad (h o List.mem_cons_self)), ih _ hos⟩
-        · exact ih _ hos
-
-theorem otherOpts_noErr (opts : List Opt) : noErr (otherOpts opts) := by
-  induction opts with
-  | nil => simp [noErr, otherOpts]
-  | cons o os ih =>
-    simp only [otherOpts]
-    split
-    · exact noErr_append.mpr ⟨abortOuts_noErr (by decide), ih⟩
-    · exact ih
+    simp only [csmOpts] at h
+    split at h
+    · obtain ⟨o', ho', hn⟩ := ih _ h; exact ⟨o', List.mem_cons_of_mem _ ho', hn⟩
+    · split at h
+      · obtain ⟨o', ho', hn⟩ := ih _ h; exact ⟨o', List.mem_cons_of_mem _ ho', hn⟩
+      · split at h
+        · simp only [Prod.mk.injEq, Option.some.injEq] at h
+          exact ⟨o, List.mem_cons_self, h.2⟩
+        · obtain ⟨o', ho', hn⟩ := ih _ h; exact ⟨o', List.mem_cons_of_mem _ ho', hn⟩
 
 theorem serialize_pong {tok : Bytes} (h : tok.length ≤ 8) :
     (serialize { code := codePong, token := tok, opts := [], payload := [] }).isSome = true := by
@@ -61,18 +52,18 @@ theorem serialize_pong {tok : Bytes} (h : tok.length ≤ 8) :
 
 theorem processSignaling_noErr (c : Conn) (m : Msg) (htok : m.token.length ≤ 8)
     (h : ∀ o ∈ m.opts, (minBE o.num).length < 13) : noErr (processSignaling c m).2 := by
-  unfold processSignaling
-  split
-  · exact csmOpts_noErr _ _ h
-  · split
-    · exact noErr_append.mpr ⟨otherOpts_noErr _, sendMessage_noErr (serialize_pong htok)⟩
-    · split
-      · exact otherOpts_noErr _
-      · split
-        · exact noErr_append.mpr ⟨otherOpts_noErr _, by simp [noErr]⟩
-        · split
-          · exact noErr_append.mpr ⟨otherOpts_noErr _, by simp [noErr]⟩
-          · exact abortOuts_noErr (by decide)
+  rcases processSignaling_cases c m with ⟨_, _, _, hp⟩ | ⟨outs, hp, hso⟩ <;> rw [hp]
+  · simp [noErr]
+  · cases hso with
+    | csmBad s n _ hc =>
+      obtain ⟨o, ho, hn⟩ := csmOpts_some_mem _ _ hc
+      exact abortOuts_noErr (serialize_abort_bad (hn ▸ h o ho))
+    | crit => exact abortOuts_noErr (by decide)
+    | unknown => exact abortOuts_noErr (by decide)
+    | pong => exact sendMessage_noErr (serialize_pong htok)
+    | none => simp [noErr]
+    | release => simp [noErr]
+    | abort => simp [noErr]
 
 theorem dispatchIncoming_noErr (m : Msg) : noErr (dispatchIncoming m) := by
   unfold dispatchIncoming
@@ -119,7 +110,7 @@ theorem step_noErr (c : Conn) (hwf : c.spool.wf) (hmax : c.maxSize < 2 ^ 64) :
     (∀ c' o, step c = .next c' o → noErr o ∧ c'.spool.wf) ∧
     (∀ c' o, step c = .stop c' o → noErr o ∧ c'.spool.wf) := by
   rcases step_cases c with ⟨hw, _⟩ | ⟨_, _, _, _, _, hs⟩ | ⟨_, _, _, _, _, _, _, hs⟩ |
-    ⟨to, tkl, len, m, hx, hfit, hcomp, hd, ⟨h3, hs⟩ | ⟨h3, h4, hs⟩ | ⟨h3, h4, hs⟩⟩
+    ⟨to, tkl, len, m, hx, hfit, hcomp, hd, ⟨h3, _, hs⟩ | ⟨h3, _, hs⟩ | ⟨h3, h4, hs⟩ | ⟨h3, h4, hs⟩⟩
   · rw [hw]; exact ⟨(fun _ _ h => by cases h), (fun _ _ h => by cases h)⟩
   · rw [hs]
     refine ⟨(fun _ _ h => by cases h), fun c' o h => ?_⟩
@@ -131,6 +122,17 @@ theorem step_noErr (c : Conn) (hwf : c.spool.wf) (hmax : c.maxSize < 2 ^ 64) :
     simp only [Step.stop.injEq] at h
     rw [← h.1, ← h.2]
     exact ⟨abortOuts_noErr (by decide), hwf⟩
+  · rw [hs]
+    refine ⟨(fun _ _ h => by cases h), fun c' o h => ?_⟩
+    simp only [Step.stop.injEq] at h
+    rw [← h.1, ← h.2, processSignaling_spool]
+    have hb := decodeMessage_num_bound (Bytes.wf_take _ hwf) hd
+    refine ⟨processSignaling_noErr _ _ (decodeMessage_token_le hd) (fun o ho => ?_),
+      Bytes.wf_drop _ hwf⟩
+    have h1 := hb o ho
+    have h2 : (c.spool.take (to + tkl + len)).length ≤ c.maxSize := by
+      simp only [List.length_take]; omega
+    exact minBE_small (Nat.le_trans h1 (Nat.mul_le_mul_left _ h2)) hmax
   · rw [hs]
     refine ⟨fun c' o h => ?_, (fun _ _ h => by cases h)⟩
     simp only [Step.next.injEq] at h
@@ -191,7 +193,7 @@ theorem feedAll_noErr : ∀ (cs : List Bytes) (c : Conn), c.spool.wf → c.maxSi
       have hy : Bytes.wf y := hcs y List.mem_cons_self
       have hwf' : (c.app y).spool.wf := Bytes.wf_append.mpr ⟨hwf, hy⟩
       obtain ⟨d1, d2⟩ := drain_noErr ((c.app y).spool.length + 1) (c.app y) (by omega) hwf' hmax
-      have hm : (feed c y).1.maxSize = c.maxSize := (drain_facts' (c.app y)).2.2.2
+      have hm : (feed c y).1.maxSize = c.maxSize := (drain_facts' (c.app y)).2.2.2.1
       exact noErr_append.mpr ⟨d1, ih _ d2 (by rw [hm]; exact hmax)
         (fun x hx => hcs x (List.mem_cons_of_mem _ hx))⟩
 
